@@ -63,8 +63,37 @@ def f16_bits(x: float, saturated: bool) -> int:
         return 0x7C00 | (0x8000 if x < 0 else 0)
 
 
-DELIM_MODE = ["exact"]  # how nested delimited objects are written by the reference ENCODER when it produces test inputs
-DELIM_RNG = random.Random(7)
+import threading
+
+
+class _PerThread(threading.local):
+    """how nested delimited objects are written by the reference ENCODER when it produces test inputs.  Per thread: the
+    harnesses of several types run concurrently, and a deserialization job switching the mode must not leak into a
+    serialization job's expectation (that race produced a false alarm in C04, see DESIGN.md 9.3)"""
+
+    def __init__(self):
+        self.mode = "exact"
+        self.rng = random.Random(7)
+
+
+_TL = _PerThread()
+
+
+class _ModeProxy:
+    def __getitem__(self, i):
+        return _TL.mode
+
+    def __setitem__(self, i, v):
+        _TL.mode = v
+
+
+class _RngProxy:
+    def __getattr__(self, name):
+        return getattr(_TL.rng, name)
+
+
+DELIM_MODE = _ModeProxy()
+DELIM_RNG = _RngProxy()
 
 
 class EncError(Exception):
